@@ -282,6 +282,9 @@ pub fn c35(args: &Args) -> Vec<Scenario> {
             v.push(Scenario::new(format!("C35.{kind:?}{}[pre={pre}]", if pre > 60_000 { "-16bit" } else { "" }), 99, move |ctx| c35_prog(ctx, kind, pre, depth)).cfg(|c| {
                 c.step_cap = 50_000_000;
                 c.keep_logs = false;
+                // API-only property on a single participant: its own SEDP loop-back traffic (one datagram per created
+                // entity, quadratic to process) is left queued until the executor goes idle
+                c.busy_pump_steps = 0;
             }));
         }
     }
